@@ -121,142 +121,37 @@ fn run_via(
             return (true, Err(e));
         }
     };
-    let mut same = p1.segments.len() == n_expected && p1.ram_filling == ram_filling;
-    if same {
-        let mut i = 0;
-        while i < n_expected {
-            if !(expected[i] == p1.segments[i]) {
-                same = false;
-            }
-            i += 1;
-        }
+    // Natively the two passes are chained for real (heap vectors are no obstacle there): a
+    // counterexample is only reported when the real pipeline's outcome is wrong, so a pass 1 that
+    // hands over something else but equivalent is not a false alarm.
+    #[cfg(not(kani))]
+    {
+        let _ = (expected, n_expected, ram_filling);
+        return (true, build_pass_2(p1, common));
     }
-    core::mem::forget(p1);
-    let r = build_pass_2(BuildResultPass1 { segments: expected, ram_filling, messages: vec![] }, common);
-    (same, r)
+    #[cfg(kani)]
+    let mut same = p1.segments.len() == n_expected && p1.ram_filling == ram_filling;
+    #[cfg(kani)]
+    {
+        if same {
+            let mut i = 0;
+            while i < n_expected {
+                if !(expected[i] == p1.segments[i]) {
+                    same = false;
+                }
+                i += 1;
+            }
+        }
+        core::mem::forget(p1);
+        let r = build_pass_2(BuildResultPass1 { segments: expected, ram_filling, messages: vec![] }, common);
+        (same, r)
+    }
 }
 
 fn pass1_only(segments: Vec<Segment>, common: &CommonContext) -> Result<BuildResultPass1, Error> {
     build_pass_1(BuildResultPass0 { segments, messages: vec![] }, common)
 }
 
-
-// ------------------------------------------------------------------------------------------
-// S1 — code segment at word address `start` (concrete per harness; 0 = no .org):
-//     <instruction of 1 or 2 words> ; l: ; .dw l ; .dw pc
-// which: 0 nop, 1 jmp k, 2 lds r,k (two words; one word on a reduced core), 3 sts k,r
-// Expected image: `start` zero words, the reference words, the word start+len, the word start+len+1.
-
-pub fn layout_instr<S: Src>(s: &mut S, which: u8, avr8l: bool, start: u32) {
-    s.role(H_C02_STEP, which as u32);
-    let r = s.below(32);
-    let kk = s.u16();
-    if avr8l {
-        s.assume(r >= 16 && kk >= 0x40 && kk <= 0xbf);
-    }
-    let ke = || InstructionOps::E(Expr::Const(kk as i64));
-    let re = || InstructionOps::R8(crate::ctx::reg(r));
-    match which {
-        0 => {
-            sv!(let a_in: InstructionOps = []);
-            sv!(let a_ex: InstructionOps = []);
-            instr_go(s, Operation::Nop, Operation::Nop, 75, a_in, a_ex, [A::K(0), A::K(0), A::K(0)], 0, start, avr8l);
-        }
-        1 => {
-            sv!(let a_in: InstructionOps = [ke()]);
-            sv!(let a_ex: InstructionOps = [ke()]);
-            instr_go(s, Operation::Jmp, Operation::Jmp, 44, a_in, a_ex, [A::K(kk as i64), A::K(0), A::K(0)], 1, start, avr8l);
-        }
-        2 => {
-            sv!(let a_in: InstructionOps = [re(), ke()]);
-            sv!(let a_ex: InstructionOps = [re(), ke()]);
-            instr_go(s, Operation::Lds, Operation::Lds, 57, a_in, a_ex, [A::R(r), A::K(kk as i64), A::K(0)], 2, start, avr8l);
-        }
-        _ => {
-            sv!(let a_in: InstructionOps = [ke(), re()]);
-            sv!(let a_ex: InstructionOps = [ke(), re()]);
-            instr_go(s, Operation::Sts, Operation::Sts, 58, a_in, a_ex, [A::K(kk as i64), A::R(r), A::K(0)], 2, start, avr8l);
-        }
-    }
-}
-
-fn instr_go<S: Src>(
-    s: &mut S,
-    op: Operation,
-    op2: Operation,
-    oi: u8,
-    a_in: Vec<InstructionOps>,
-    a_ex: Vec<InstructionOps>,
-    a: [A; 3],
-    n: usize,
-    start: u32,
-    avr8l: bool,
-) {
-    let common = CommonContext::new();
-    if avr8l {
-        common.device.replace(Some(crate::ctx::device(true)));
-    }
-    let expect = ref_encode(&op, &a[..n], start, avr8l);
-    sv!(let d1: Operand = [id("l")]);
-    sv!(let d2: Operand = [id("pc")]);
-    sv!(let items: It = [
-        (cp(1), Item::Instruction(op, a_in)),
-        (cp(2), label("l")),
-        (cp(3), Item::Data(DataDefine::Dw, d1)),
-        (cp(4), Item::Data(DataDefine::Dw, d2)),
-    ]);
-    sv!(let segs: Segment = [seg(SegmentType::Code, start, items)]);
-    sv!(let e1: Operand = [id("l")]);
-    sv!(let e2: Operand = [id("pc")]);
-    sv!(let eitems: It = [
-        (cp(1), Item::Instruction(op2, a_ex)),
-        (cp(3), Item::Data(DataDefine::Dw, e1)),
-        (cp(4), Item::Data(DataDefine::Dw, e2)),
-    ]);
-    sv!(let esegs: Segment = [seg(SegmentType::Code, start, eitems)]);
-    let (same, res) = run_via(segs, esegs, 1, 0, &common);
-    cov!(res.is_ok(), "!segment assembled");
-    #[cfg(not(kani))]
-    {
-        s.note("start", start as i64);
-        s.note_s("instruction", &format!("{} {:?}", op_text(oi), &a[..n]));
-        s.note("avr8l", avr8l as i64);
-        note_result(s, &res);
-        s.note_s("reference", &format!("{:x?}", expect));
-    }
-    let _ = oi;
-    chk!(s, same, "C02: pass 1 hands pass 2 something else than the output-producing items at their resolved addresses");
-    chk!(s, res.is_ok() && expect.is_some(), "C02: a valid one-instruction segment failed to build");
-    if let (Ok(b), Some(e)) = (&res, &expect) {
-        let len: usize = if e.w1.is_some() { 2 } else { 1 };
-        let st = start as usize;
-        chk!(s, b.code.len() == 2 * (st + len + 2), "C02: image length differs from .org gap + instruction + data");
-        let mut gap_zero = true;
-        if st > 0 && word_at(&b.code, 0) != Some(0) {
-            gap_zero = false;
-        }
-        if st > 1 && word_at(&b.code, 1) != Some(0) {
-            gap_zero = false;
-        }
-        chk!(s, gap_zero, "C02: the .org gap is not filled with zero bytes");
-        chk!(s, word_at(&b.code, st) == Some(e.w0), "C02: instruction does not land at the .org address");
-        if let Some(w1) = e.w1 {
-            chk!(s, word_at(&b.code, st + 1) == Some(w1), "C02: second instruction word misplaced");
-        }
-        chk!(
-            s,
-            word_at(&b.code, st + len) == Some((st + len) as u16),
-            "C02: label value differs from the position where the next item was emitted"
-        );
-        chk!(
-            s,
-            word_at(&b.code, st + len + 1) == Some((st + len + 1) as u16),
-            "C03: pc is not the address of the item being emitted"
-        );
-    }
-    core::mem::forget(res);
-    core::mem::forget(common);
-}
 
 // ------------------------------------------------------------------------------------------
 // S2 — `.db` of n = 1..=3 byte constants in flash at word address `start` (concrete per harness), then
@@ -332,135 +227,6 @@ fn db_go<S: Src>(s: &mut S, n: usize, start: u32, b: [u8; 3], ops: Vec<Operand>,
 }
 
 // ------------------------------------------------------------------------------------------
-// S3 — EEPROM: `.db a, b, c` ; (a code segment in between) ; second EEPROM block at address
-// `org` (0 = continue, or 5): `l: .db d` ; code: `.dw l`.
-// Expected eeprom image: a b c [zero gap up to org] d; l = 3 or 5; odd eeprom lengths unpadded.
-
-pub fn eeprom_blocks<S: Src>(s: &mut S, org5: bool) {
-    s.role(H_C02_STEP, 20 + org5 as u32);
-    let b = [s.u8(), s.u8(), s.u8(), s.u8()];
-    let common = CommonContext::new();
-    let org: u32 = if org5 { 5 } else { 0 };
-    let at: u32 = if org5 { 5 } else { 3 };
-    let kb = |i: usize| k(b[i] as i64);
-    sv!(let o1: Operand = [kb(0), kb(1), kb(2)]);
-    sv!(let o2: Operand = [kb(3)]);
-    sv!(let o3: Operand = [id("l")]);
-    sv!(let n0: InstructionOps = []);
-    sv!(let i1: It = [(cp(1), Item::Data(DataDefine::Db, o1))]);
-    sv!(let i2: It = [(cp(2), Item::Instruction(Operation::Nop, n0))]);
-    sv!(let i3: It = [(cp(3), label("l")), (cp(4), Item::Data(DataDefine::Db, o2))]);
-    sv!(let i4: It = [(cp(5), Item::Data(DataDefine::Dw, o3))]);
-    sv!(let segs: Segment = [
-        seg(SegmentType::Eeprom, 0, i1),
-        seg(SegmentType::Code, 0, i2),
-        seg(SegmentType::Eeprom, org, i3),
-        seg(SegmentType::Code, 0, i4),
-    ]);
-    sv!(let eo1: Operand = [kb(0), kb(1), kb(2)]);
-    sv!(let eo2: Operand = [kb(3)]);
-    sv!(let eo3: Operand = [id("l")]);
-    sv!(let en0: InstructionOps = []);
-    sv!(let e1: It = [(cp(1), Item::Data(DataDefine::Db, eo1))]);
-    sv!(let e2: It = [(cp(2), Item::Instruction(Operation::Nop, en0))]);
-    sv!(let e3: It = [(cp(4), Item::Data(DataDefine::Db, eo2))]);
-    sv!(let e4: It = [(cp(5), Item::Data(DataDefine::Dw, eo3))]);
-    sv!(let esegs: Segment = [
-        seg(SegmentType::Eeprom, 0, e1),
-        seg(SegmentType::Code, 0, e2),
-        seg(SegmentType::Eeprom, at, e3),
-        seg(SegmentType::Code, 1, e4),
-    ]);
-    let (same, res) = run_via(segs, esegs, 4, 0, &common);
-    cov!(res.is_ok(), "!program assembled");
-    #[cfg(not(kani))]
-    {
-        s.note("org", org as i64);
-        note_result(s, &res);
-    }
-    chk!(s, same, "C02: pass 1 hands pass 2 something else than the output-producing items at their resolved addresses");
-    chk!(s, res.is_ok(), "C02: interleaved eeprom/code segments failed to build");
-    if let Ok(r) = &res {
-        let at = at as usize;
-        chk!(s, r.eeprom.len() == at + 1, "C02: eeprom image length differs from data + gap");
-        chk!(
-            s,
-            byte_at(&r.eeprom, 0) == Some(b[0]) && byte_at(&r.eeprom, 1) == Some(b[1]) && byte_at(&r.eeprom, 2) == Some(b[2]),
-            "C06: eeprom .db bytes not packed in source order"
-        );
-        if org5 {
-            chk!(s, byte_at(&r.eeprom, 3) == Some(0) && byte_at(&r.eeprom, 4) == Some(0), "C02: eeprom .org gap not zero filled");
-        }
-        chk!(s, byte_at(&r.eeprom, at) == Some(b[3]), "C02: second eeprom block does not land at its address");
-        chk!(s, r.code.len() == 4 && word_at(&r.code, 0) == Some(0), "C02: interleaved code segments are not concatenated");
-        chk!(s, word_at(&r.code, 1) == Some(at as u16), "C02: eeprom label differs from the byte offset of its item");
-    }
-    core::mem::forget(res);
-    core::mem::forget(common);
-}
-
-// ------------------------------------------------------------------------------------------
-// S4 — reservations (n, m concrete per harness): eeprom `.db a ; .byte n ; .db b` and data segment
-// `.byte m ; l:` at address `dorg` (0 = RAM start, or RAM start + 4); code `.dw l`.
-// Expected: eeprom = a, n zeros, b; l = data start + m; ram_filling = extent of the data segment.
-
-pub fn reservations<S: Src>(s: &mut S, with_org: bool, n: i64, m: i64) {
-    s.role(H_C02_STEP, 30 + with_org as u32);
-    let a = s.u8();
-    let b = s.u8();
-    let common = CommonContext::new();
-    let ram_start = 0x60u32; // default device
-    let dorg: u32 = if with_org { ram_start + 4 } else { 0 };
-    let dstart: u32 = if with_org { ram_start + 4 } else { ram_start };
-    let fill = dstart + m as u32 - ram_start;
-    sv!(let o1: Operand = [k(a as i64)]);
-    sv!(let o2: Operand = [k(b as i64)]);
-    sv!(let o3: Operand = [id("l")]);
-    sv!(let i1: It = [(cp(1), Item::Data(DataDefine::Db, o1)), (cp(2), Item::ReserveData(n)), (cp(3), Item::Data(DataDefine::Db, o2))]);
-    sv!(let i2: It = [(cp(4), Item::ReserveData(m)), (cp(5), label("l"))]);
-    sv!(let i3: It = [(cp(6), Item::Data(DataDefine::Dw, o3))]);
-    sv!(let segs: Segment = [seg(SegmentType::Eeprom, 0, i1), seg(SegmentType::Data, dorg, i2), seg(SegmentType::Code, 0, i3)]);
-    sv!(let eo1: Operand = [k(a as i64)]);
-    sv!(let eo2: Operand = [k(b as i64)]);
-    sv!(let eo3: Operand = [id("l")]);
-    sv!(let e1: It = [(cp(1), Item::Data(DataDefine::Db, eo1)), (cp(2), Item::ReserveData(n)), (cp(3), Item::Data(DataDefine::Db, eo2))]);
-    sv!(let e2: It = []);
-    sv!(let e3: It = [(cp(6), Item::Data(DataDefine::Dw, eo3))]);
-    sv!(let esegs: Segment = [seg(SegmentType::Eeprom, 0, e1), seg(SegmentType::Data, dstart, e2), seg(SegmentType::Code, 0, e3)]);
-    let (same, res) = run_via(segs, esegs, 3, fill, &common);
-    cov!(res.is_ok(), "!program assembled");
-    #[cfg(not(kani))]
-    {
-        s.note("n", n);
-        s.note("m", m);
-        s.note("dorg", dorg as i64);
-        note_result(s, &res);
-    }
-    chk!(s, same, "C12/C02: pass 1 result differs from the reference layout (segment addresses, kept items, RAM usage = extent of the data segment)");
-    chk!(s, res.is_ok(), "C06: reservations in eeprom / data segment failed to build");
-    if let Ok(r) = &res {
-        let n = n as usize;
-        chk!(s, r.eeprom.len() == n + 2, "C06: .byte n in eeprom does not contribute n bytes");
-        chk!(s, byte_at(&r.eeprom, 0) == Some(a) && byte_at(&r.eeprom, n + 1) == Some(b), "C06: data around an eeprom reservation misplaced");
-        let mut zeros = true;
-        if n > 0 && byte_at(&r.eeprom, 1) != Some(0) {
-            zeros = false;
-        }
-        if n > 1 && byte_at(&r.eeprom, 2) != Some(0) {
-            zeros = false;
-        }
-        if n > 2 && byte_at(&r.eeprom, 3) != Some(0) {
-            zeros = false;
-        }
-        chk!(s, zeros, "C06: eeprom reservation is not zero bytes");
-        chk!(s, word_at(&r.code, 0) == Some((dstart + m as u32) as u16), "C02: data-segment label differs from RAM start + offset");
-        chk!(s, r.ram_filling == fill, "C12: RAM usage is not the extent of the data segment");
-    }
-    core::mem::forget(res);
-    core::mem::forget(common);
-}
-
-// ------------------------------------------------------------------------------------------
 // S5 — items in the wrong segment fail the build (pass 1).
 // case 0: .dw in .dseg, 1: .db in .dseg, 2: .byte in .cseg, 3: instruction in .eseg,
 //      4: .dd in .dseg, 5: .dq in .dseg, 6: instruction in .dseg
@@ -490,203 +256,6 @@ pub fn wrong_segment<S: Src>(s: &mut S, case: u8) {
         s.note_s("pass1", &format!("{:?}", res.as_ref().map(|_| "Ok").map_err(|e| e.to_string())));
     }
     chk!(s, res.is_err(), "C06: a data directive / instruction in the wrong segment was accepted");
-    core::mem::forget(res);
-    core::mem::forget(common);
-}
-
-// ------------------------------------------------------------------------------------------
-// S6 — `.set` sequencing with symbolic letter case:
-//   .set a = v1 ; .dw a ; .set a = v2 ; .dw a      -> v1, v2
-// Each occurrence of the name is written in its own (symbolic) letter case.
-// variant 1:  .set a = v1 ; .set b = a ; .set a = v2 ; .dw b   -> v1 (evaluated when assigned)
-
-pub fn set_sequence<S: Src>(s: &mut S, variant: u8) {
-    s.role(H_C10_PASS, variant as u32);
-    let v1 = s.u16() as i64;
-    let v2 = s.u16() as i64;
-    let c = [s.bool(), s.bool(), s.bool(), s.bool()];
-    let common = CommonContext::new();
-    let a = |i: usize| nm(b'a', c[i]);
-    if variant == 0 {
-        sv!(let d1: Operand = [Operand::E(Expr::Ident(a(1)))]);
-        sv!(let d2: Operand = [Operand::E(Expr::Ident(a(3)))]);
-        sv!(let items: It = [
-            (cp(1), Item::Set(a(0), Expr::Const(v1))),
-            (cp(2), Item::Data(DataDefine::Dw, d1)),
-            (cp(3), Item::Set(a(2), Expr::Const(v2))),
-            (cp(4), Item::Data(DataDefine::Dw, d2)),
-        ]);
-        sv!(let segs: Segment = [seg(SegmentType::Code, 0, items)]);
-        sv!(let ed1: Operand = [Operand::E(Expr::Ident(a(1)))]);
-        sv!(let ed2: Operand = [Operand::E(Expr::Ident(a(3)))]);
-        sv!(let eitems: It = [
-            (cp(1), Item::Set(a(0), Expr::Const(v1))),
-            (cp(2), Item::Data(DataDefine::Dw, ed1)),
-            (cp(3), Item::Set(a(2), Expr::Const(v2))),
-            (cp(4), Item::Data(DataDefine::Dw, ed2)),
-        ]);
-        sv!(let esegs: Segment = [seg(SegmentType::Code, 0, eitems)]);
-        let (same, res) = run_via(segs, esegs, 1, 0, &common);
-        cov!(res.is_ok(), "!program assembled");
-        cov!(res.is_ok() && c[0] != c[1], "definition and use differ in letter case");
-        #[cfg(not(kani))]
-        {
-            s.note_s("names", &format!(".set {} / .dw {} / .set {} / .dw {}", a(0), a(1), a(2), a(3)));
-            note_result(s, &res);
-        }
-        chk!(s, same, "C02: pass 1 hands pass 2 something else than the output-producing items at their resolved addresses");
-        chk!(s, res.is_ok(), "C10: a valid .set sequence failed to build (names differ only in letter case)");
-        if let Ok(r) = &res {
-            chk!(s, r.code.len() == 4, "C10: image length");
-            chk!(s, word_at(&r.code, 0) == Some(v1 as u16), "C10: .set value not visible to the next reference");
-            chk!(s, word_at(&r.code, 1) == Some(v2 as u16), "C10: reference does not see the latest preceding .set");
-        }
-        core::mem::forget(res);
-    } else {
-        let bb = || String::from("b");
-        sv!(let d1: Operand = [Operand::E(Expr::Ident(bb()))]);
-        sv!(let items: It = [
-            (cp(1), Item::Set(a(0), Expr::Const(v1))),
-            (cp(2), Item::Set(bb(), Expr::Ident(a(1)))),
-            (cp(3), Item::Set(a(2), Expr::Const(v2))),
-            (cp(4), Item::Data(DataDefine::Dw, d1)),
-        ]);
-        sv!(let segs: Segment = [seg(SegmentType::Code, 0, items)]);
-        sv!(let ed1: Operand = [Operand::E(Expr::Ident(bb()))]);
-        sv!(let eitems: It = [
-            (cp(1), Item::Set(a(0), Expr::Const(v1))),
-            (cp(2), Item::Set(bb(), Expr::Ident(a(1)))),
-            (cp(3), Item::Set(a(2), Expr::Const(v2))),
-            (cp(4), Item::Data(DataDefine::Dw, ed1)),
-        ]);
-        sv!(let esegs: Segment = [seg(SegmentType::Code, 0, eitems)]);
-        let (same, res) = run_via(segs, esegs, 1, 0, &common);
-        cov!(res.is_ok(), "!program assembled");
-        #[cfg(not(kani))]
-        {
-            s.note_s("names", &format!(".set {} / .set b = {} / .set {} / .dw b", a(0), a(1), a(2)));
-            note_result(s, &res);
-        }
-        chk!(s, same, "C02: pass 1 hands pass 2 something else than the output-producing items at their resolved addresses");
-        chk!(s, res.is_ok(), "C10: a valid .set sequence failed to build (names differ only in letter case)");
-        if let Ok(r) = &res {
-            chk!(s, r.code.len() == 2 && word_at(&r.code, 0) == Some(v1 as u16), "C10: a .set variable changed after it was assigned");
-        }
-        core::mem::forget(res);
-    }
-    core::mem::forget(common);
-}
-
-// ------------------------------------------------------------------------------------------
-// S7 — `.set` inside a data segment block is applied like anywhere else:
-// cseg `.set n = v1 ; nop` ; dseg `.set n = v2 ; .byte 1` ; cseg `.dw n`  ->  nop, v2
-
-pub fn set_in_dseg<S: Src>(s: &mut S) {
-    s.role(H_C10_PASS, 5);
-    let v1 = s.u16() as i64;
-    let v2 = s.u16() as i64;
-    let common = CommonContext::new();
-    let n = || String::from("n");
-    sv!(let n0: InstructionOps = []);
-    sv!(let d: Operand = [id("n")]);
-    sv!(let i1: It = [(cp(1), Item::Set(n(), Expr::Const(v1))), (cp(2), Item::Instruction(Operation::Nop, n0))]);
-    sv!(let i2: It = [(cp(3), Item::Set(n(), Expr::Const(v2))), (cp(4), Item::ReserveData(1))]);
-    sv!(let i3: It = [(cp(5), Item::Data(DataDefine::Dw, d))]);
-    sv!(let segs: Segment = [seg(SegmentType::Code, 0, i1), seg(SegmentType::Data, 0, i2), seg(SegmentType::Code, 0, i3)]);
-    sv!(let en0: InstructionOps = []);
-    sv!(let ed: Operand = [id("n")]);
-    sv!(let e1: It = [(cp(1), Item::Set(n(), Expr::Const(v1))), (cp(2), Item::Instruction(Operation::Nop, en0))]);
-    sv!(let e2: It = [(cp(3), Item::Set(n(), Expr::Const(v2)))]);
-    sv!(let e3: It = [(cp(5), Item::Data(DataDefine::Dw, ed))]);
-    sv!(let esegs: Segment = [seg(SegmentType::Code, 0, e1), seg(SegmentType::Data, 0x60, e2), seg(SegmentType::Code, 1, e3)]);
-    let (same, res) = run_via(segs, esegs, 3, 1, &common);
-    cov!(res.is_ok(), "!program assembled");
-    #[cfg(not(kani))]
-    {
-        note_result(s, &res);
-    }
-    chk!(s, same, "C02: pass 1 hands pass 2 something else than the output-producing items at their resolved addresses");
-    chk!(s, res.is_ok(), "C10: .set inside a .dseg block failed to build");
-    if let Ok(r) = &res {
-        chk!(s, r.code.len() == 4 && word_at(&r.code, 1) == Some(v2 as u16), "C10: a .set written inside a .dseg block was not applied");
-    }
-    core::mem::forget(res);
-    core::mem::forget(common);
-}
-
-// ------------------------------------------------------------------------------------------
-// S8 — `.def` / `.undef` lifetime with symbolic letter case at every occurrence:
-//   .def t = r17 ; com t ; [.undef t ; [com t]]
-// case 0: first two items -> builds, identical to `com r17`
-// case 1: first three -> builds (undefining in another letter case is fine)
-// case 2: all four -> the build fails (alias used after .undef)
-
-pub fn def_undef<S: Src>(s: &mut S, case: u8) {
-    s.role(H_C10_PASS, 10 + case as u32);
-    let c = [s.bool(), s.bool(), s.bool(), s.bool()];
-    let common = CommonContext::new();
-    let t = |i: usize| nm(b't', c[i]);
-    let r17 = || Expr::Ident(String::from("r17"));
-    let com = |n: String, a: Vec<InstructionOps>| Item::Instruction(Operation::Com, a);
-    sv!(let a1: InstructionOps = [InstructionOps::E(Expr::Ident(t(1)))]);
-    sv!(let a2: InstructionOps = [InstructionOps::E(Expr::Ident(t(3)))]);
-    sv!(let b1: InstructionOps = [InstructionOps::E(Expr::Ident(t(1)))]);
-    sv!(let b2: InstructionOps = [InstructionOps::E(Expr::Ident(t(3)))]);
-    let (same, res) = match case {
-        0 => {
-            sv!(let items: It = [(cp(1), Item::Def(t(0), r17())), (cp(2), Item::Instruction(Operation::Com, a1))]);
-            sv!(let eitems: It = [(cp(1), Item::Def(t(0), r17())), (cp(2), Item::Instruction(Operation::Com, b1))]);
-            sv!(let segs: Segment = [seg(SegmentType::Code, 0, items)]);
-            sv!(let esegs: Segment = [seg(SegmentType::Code, 0, eitems)]);
-            core::mem::forget(a2);
-            core::mem::forget(b2);
-            run_via(segs, esegs, 1, 0, &common)
-        }
-        1 => {
-            sv!(let items: It = [(cp(1), Item::Def(t(0), r17())), (cp(2), Item::Instruction(Operation::Com, a1)), (cp(3), Item::Undef(t(2)))]);
-            sv!(let eitems: It = [(cp(1), Item::Def(t(0), r17())), (cp(2), Item::Instruction(Operation::Com, b1)), (cp(3), Item::Undef(t(2)))]);
-            sv!(let segs: Segment = [seg(SegmentType::Code, 0, items)]);
-            sv!(let esegs: Segment = [seg(SegmentType::Code, 0, eitems)]);
-            core::mem::forget(a2);
-            core::mem::forget(b2);
-            run_via(segs, esegs, 1, 0, &common)
-        }
-        _ => {
-            sv!(let items: It = [
-                (cp(1), Item::Def(t(0), r17())),
-                (cp(2), Item::Instruction(Operation::Com, a1)),
-                (cp(3), Item::Undef(t(2))),
-                (cp(4), Item::Instruction(Operation::Com, a2)),
-            ]);
-            sv!(let eitems: It = [
-                (cp(1), Item::Def(t(0), r17())),
-                (cp(2), Item::Instruction(Operation::Com, b1)),
-                (cp(3), Item::Undef(t(2))),
-                (cp(4), Item::Instruction(Operation::Com, b2)),
-            ]);
-            sv!(let segs: Segment = [seg(SegmentType::Code, 0, items)]);
-            sv!(let esegs: Segment = [seg(SegmentType::Code, 0, eitems)]);
-            run_via(segs, esegs, 1, 0, &common)
-        }
-    };
-    let _ = com;
-    #[cfg(not(kani))]
-    {
-        s.note_s("names", &format!(".def {} = r17 / com {} / .undef {} / com {}", t(0), t(1), t(2), t(3)));
-        s.note("case", case as i64);
-        note_result(s, &res);
-    }
-    chk!(s, same, "C02: pass 1 hands pass 2 something else than the output-producing items at their resolved addresses");
-    if case < 2 {
-        cov!(res.is_ok(), "!alias assembled");
-        chk!(s, res.is_ok(), "C10: a program using / undefining a .def alias failed to build (names differ only in letter case)");
-        if let Ok(b) = &res {
-            chk!(s, b.code.len() == 2 && word_at(&b.code, 0) == Some(0x9400 | (17u16 << 4)), "C10: instruction using an alias differs from the one using the register");
-        }
-    } else {
-        cov!(res.is_err(), "!use after .undef rejected");
-        chk!(s, res.is_err(), "C10: an alias used after .undef still assembled");
-    }
     core::mem::forget(res);
     core::mem::forget(common);
 }
@@ -792,64 +361,6 @@ pub fn gate_in_pass2<S: Src>(s: &mut S, which: u8) {
     chk!(s, res.is_ok() == !missing, "C13: pass 2 does not consult the device gate (or consults it wrongly)");
     if let Ok(b) = &res {
         chk!(s, b.code.len() == 2 && word_at(&b.code, 0) == Some(want), "C13: an allowed instruction assembles differently with a device selected");
-    }
-    core::mem::forget(res);
-    core::mem::forget(common);
-}
-
-// ------------------------------------------------------------------------------------------
-// S11 — running offsets over interleaved segments of all three kinds:
-//   cseg: nop | dseg: .byte 2 | cseg: l: .dw l | dseg: m: .byte 1 | cseg .org 4: .dw m
-// Expected: code = nop, 1, 0, 0, ram_start+2; ram_filling = 3.
-
-pub fn running_offsets<S: Src>(s: &mut S) {
-    s.role(H_C02_STEP, 50);
-    let common = CommonContext::new();
-    let ram_start = 0x60u32;
-    sv!(let n0: InstructionOps = []);
-    sv!(let o1: Operand = [id("l")]);
-    sv!(let o2: Operand = [id("m")]);
-    sv!(let i1: It = [(cp(1), Item::Instruction(Operation::Nop, n0))]);
-    sv!(let i2: It = [(cp(2), Item::ReserveData(2))]);
-    sv!(let i3: It = [(cp(3), label("l")), (cp(4), Item::Data(DataDefine::Dw, o1))]);
-    sv!(let i4: It = [(cp(5), label("m")), (cp(6), Item::ReserveData(1))]);
-    sv!(let i5: It = [(cp(7), Item::Data(DataDefine::Dw, o2))]);
-    sv!(let segs: Segment = [
-        seg(SegmentType::Code, 0, i1),
-        seg(SegmentType::Data, 0, i2),
-        seg(SegmentType::Code, 0, i3),
-        seg(SegmentType::Data, 0, i4),
-        seg(SegmentType::Code, 4, i5),
-    ]);
-    sv!(let en0: InstructionOps = []);
-    sv!(let eo1: Operand = [id("l")]);
-    sv!(let eo2: Operand = [id("m")]);
-    sv!(let e1: It = [(cp(1), Item::Instruction(Operation::Nop, en0))]);
-    sv!(let e2: It = []);
-    sv!(let e3: It = [(cp(4), Item::Data(DataDefine::Dw, eo1))]);
-    sv!(let e4: It = []);
-    sv!(let e5: It = [(cp(7), Item::Data(DataDefine::Dw, eo2))]);
-    sv!(let esegs: Segment = [
-        seg(SegmentType::Code, 0, e1),
-        seg(SegmentType::Data, ram_start, e2),
-        seg(SegmentType::Code, 1, e3),
-        seg(SegmentType::Data, ram_start + 2, e4),
-        seg(SegmentType::Code, 4, e5),
-    ]);
-    let (same, res) = run_via(segs, esegs, 5, 3, &common);
-    cov!(res.is_ok(), "!program assembled");
-    #[cfg(not(kani))]
-    {
-        note_result(s, &res);
-    }
-    chk!(s, same, "C02/C12: pass 1 result differs from the reference layout (running offsets per segment kind, RAM usage)");
-    chk!(s, res.is_ok(), "C02: interleaved segments failed to build");
-    if let Ok(r) = &res {
-        chk!(s, r.code.len() == 10, "C02: image length differs from items + .org gap");
-        chk!(s, word_at(&r.code, 0) == Some(0) && word_at(&r.code, 2) == Some(0) && word_at(&r.code, 3) == Some(0), "C02: gap / nop words not zero");
-        chk!(s, word_at(&r.code, 1) == Some(1), "C02: label in a continued code segment differs from its position");
-        chk!(s, word_at(&r.code, 4) == Some((ram_start + 2) as u16), "C02: label in a continued data segment differs from RAM start + offset");
-        chk!(s, r.ram_filling == 3, "C12: RAM usage is not the extent of the data segment");
     }
     core::mem::forget(res);
     core::mem::forget(common);
@@ -976,16 +487,22 @@ pub fn def_small<S: Src>(s: &mut S, case: u8) {
             one_seg(s, &common, 0, items, eitems)
         }
         1 => {
+            // state after `.def t = r17` built directly, the way pass 2 installs an alias
+            // (`set_def(alias.to_lowercase(), register)`); then `.undef <t>` in any letter case
+            use avra_lib::context::Context;
+            let _ = common.set_def(String::from("t"), crate::ctx::reg(17));
             core::mem::forget(a1);
             core::mem::forget(b1);
-            sv!(let items: It = [(cp(1), Item::Def(t(0), r17())), (cp(2), Item::Undef(t(1)))]);
-            sv!(let eitems: It = [(cp(1), Item::Def(t(0), r17())), (cp(2), Item::Undef(t(1)))]);
+            sv!(let items: It = [(cp(2), Item::Undef(t(1)))]);
+            sv!(let eitems: It = [(cp(2), Item::Undef(t(1)))]);
             one_seg(s, &common, 0, items, eitems)
         }
         _ => {
+            use avra_lib::context::Context;
+            let _ = common.set_def(String::from("t"), crate::ctx::reg(17));
             s.assume(!c[0] && !c[1]);
-            sv!(let items: It = [(cp(1), Item::Def(t(0), r17())), (cp(2), Item::Undef(t(0))), (cp(3), Item::Instruction(Operation::Com, a1))]);
-            sv!(let eitems: It = [(cp(1), Item::Def(t(0), r17())), (cp(2), Item::Undef(t(0))), (cp(3), Item::Instruction(Operation::Com, b1))]);
+            sv!(let items: It = [(cp(2), Item::Undef(t(0))), (cp(3), Item::Instruction(Operation::Com, a1))]);
+            sv!(let eitems: It = [(cp(2), Item::Undef(t(0))), (cp(3), Item::Instruction(Operation::Com, b1))]);
             one_seg(s, &common, 0, items, eitems)
         }
     };
@@ -1149,6 +666,8 @@ pub fn pc_value<S: Src>(s: &mut S, which: u8, start: u32) {
 /// T6 — eeprom: (which 0) `.db a` ; second block at `.org 3`: `.db b`  -> a 0 0 b
 ///              (which 1) `.db a, b, c ; l:` ; code `.dw l`         -> odd length unpadded, l = 3
 ///              (which 2) `.db a ; .byte n ; .db b` (n concrete)     -> a, n zeros, b
+///              (which 3) `.db a ; .byte n` (reservation last)       -> a, n zeros
+///              (which 4) `.byte n ; .dw w`                          -> n zeros, w low, w high
 pub fn eeprom_small<S: Src>(s: &mut S, which: u8, n: i64) {
     s.role(H_C02_STEP, 80 + which as u32);
     let b = [s.u8(), s.u8(), s.u8()];
@@ -1181,6 +700,25 @@ pub fn eeprom_small<S: Src>(s: &mut S, which: u8, n: i64) {
             sv!(let esegs: Segment = [seg(SegmentType::Eeprom, 0, e1), seg(SegmentType::Code, 0, e2)]);
             run_via(segs, esegs, 2, 0, &common)
         }
+        3 => {
+            sv!(let o1: Operand = [kb(0)]);
+            sv!(let p1: Operand = [kb(0)]);
+            sv!(let i1: It = [(cp(1), Item::Data(DataDefine::Db, o1)), (cp(2), Item::ReserveData(n))]);
+            sv!(let e1: It = [(cp(1), Item::Data(DataDefine::Db, p1)), (cp(2), Item::ReserveData(n))]);
+            sv!(let segs: Segment = [seg(SegmentType::Eeprom, 0, i1)]);
+            sv!(let esegs: Segment = [seg(SegmentType::Eeprom, 0, e1)]);
+            run_via(segs, esegs, 1, 0, &common)
+        }
+        4 => {
+            let w = b[0] as i64 | ((b[1] as i64) << 8);
+            sv!(let o1: Operand = [k(w)]);
+            sv!(let p1: Operand = [k(w)]);
+            sv!(let i1: It = [(cp(1), Item::ReserveData(n)), (cp(2), Item::Data(DataDefine::Dw, o1))]);
+            sv!(let e1: It = [(cp(1), Item::ReserveData(n)), (cp(2), Item::Data(DataDefine::Dw, p1))]);
+            sv!(let segs: Segment = [seg(SegmentType::Eeprom, 0, i1)]);
+            sv!(let esegs: Segment = [seg(SegmentType::Eeprom, 0, e1)]);
+            run_via(segs, esegs, 1, 0, &common)
+        }
         _ => {
             sv!(let o1: Operand = [kb(0)]);
             sv!(let o2: Operand = [kb(1)]);
@@ -1212,6 +750,33 @@ pub fn eeprom_small<S: Src>(s: &mut S, which: u8, n: i64) {
                 chk!(s, r.eeprom.len() == 3, "C06: odd-length .db in eeprom must not be padded");
                 chk!(s, byte_at(&r.eeprom, 0) == Some(b[0]) && byte_at(&r.eeprom, 1) == Some(b[1]) && byte_at(&r.eeprom, 2) == Some(b[2]), "C06: eeprom .db bytes not in source order");
                 chk!(s, r.code.len() == 2 && word_at(&r.code, 0) == Some(3), "C02: eeprom label differs from the byte offset of the next item");
+            }
+            3 => {
+                let n = n as usize;
+                chk!(s, r.eeprom.len() == n + 1 && byte_at(&r.eeprom, 0) == Some(b[0]), "C06: a trailing .byte n in eeprom does not contribute n bytes");
+                let mut zeros = true;
+                let mut i = 0;
+                while i < n {
+                    if byte_at(&r.eeprom, 1 + i) != Some(0) {
+                        zeros = false;
+                    }
+                    i += 1;
+                }
+                chk!(s, zeros, "C06: eeprom reservation is not zero bytes");
+            }
+            4 => {
+                let n = n as usize;
+                chk!(s, r.eeprom.len() == n + 2, "C06: eeprom image length differs from reservation + word");
+                chk!(s, byte_at(&r.eeprom, n) == Some(b[0]) && byte_at(&r.eeprom, n + 1) == Some(b[1]), "C06: word data after an eeprom reservation misplaced (source order)");
+                let mut zeros = true;
+                let mut i = 0;
+                while i < n {
+                    if byte_at(&r.eeprom, i) != Some(0) {
+                        zeros = false;
+                    }
+                    i += 1;
+                }
+                chk!(s, zeros, "C06: eeprom reservation is not zero bytes");
             }
             _ => {
                 let n = n as usize;
@@ -1316,6 +881,48 @@ pub fn set_dseg_small<S: Src>(s: &mut S) {
     if let Ok(r) = &res {
         chk!(s, r.code.len() == 2 && word_at(&r.code, 0) == Some(v as u16), "C10: a .set written inside a .dseg block was not applied");
     }
+    core::mem::forget(res);
+    core::mem::forget(common);
+}
+
+/// T10 — a block placed (with `.org`) below the running end of its segment kind is an error, for
+/// all three kinds: first block holds 3 units (3 nops / 3 eeprom bytes / `.byte 3`), second block `.org 1`
+pub fn overlap<S: Src>(s: &mut S, kind: u8) {
+    s.role(H_C02_STEP, 100 + kind as u32);
+    let common = CommonContext::new();
+    let res = match kind {
+        0 => {
+            sv!(let n0: InstructionOps = []);
+            sv!(let n1: InstructionOps = []);
+            sv!(let n2: InstructionOps = []);
+            sv!(let n3: InstructionOps = []);
+            sv!(let i1: It = [(cp(1), Item::Instruction(Operation::Nop, n0)), (cp(2), Item::Instruction(Operation::Nop, n1)), (cp(3), Item::Instruction(Operation::Nop, n2))]);
+            sv!(let i2: It = [(cp(4), Item::Instruction(Operation::Nop, n3))]);
+            sv!(let segs: Segment = [seg(SegmentType::Code, 0, i1), seg(SegmentType::Code, 1, i2)]);
+            pass1_only(segs, &common)
+        }
+        1 => {
+            sv!(let o1: Operand = [k(1), k(2), k(3)]);
+            sv!(let o2: Operand = [k(4)]);
+            sv!(let i1: It = [(cp(1), Item::Data(DataDefine::Db, o1))]);
+            sv!(let i2: It = [(cp(2), Item::Data(DataDefine::Db, o2))]);
+            sv!(let segs: Segment = [seg(SegmentType::Eeprom, 0, i1), seg(SegmentType::Eeprom, 1, i2)]);
+            pass1_only(segs, &common)
+        }
+        _ => {
+            sv!(let i1: It = [(cp(1), Item::ReserveData(3))]);
+            sv!(let i2: It = [(cp(2), Item::ReserveData(1))]);
+            sv!(let segs: Segment = [seg(SegmentType::Data, 0, i1), seg(SegmentType::Data, 0x61, i2)]);
+            pass1_only(segs, &common)
+        }
+    };
+    cov!(res.is_err(), "!overlapping block rejected");
+    #[cfg(not(kani))]
+    {
+        s.note("kind", kind as i64);
+        s.note_s("pass1", &format!("{:?}", res.as_ref().map(|_| "Ok").map_err(|e| e.to_string())));
+    }
+    chk!(s, res.is_err(), "C02: a block placed below the running end of its segment kind was accepted (items would overwrite / labels would not match positions)");
     core::mem::forget(res);
     core::mem::forget(common);
 }
